@@ -94,7 +94,7 @@
 		assert!(n == 6);
 	}
 
-	/// @ob alg.unknown_oid @props C11 @kind forall @tier quick @timeout 900 @bound "every 7-arc OID (the length of the RSA and ECDSA identifiers) and every 4-arc OID" @fns rcgen::SignatureAlgorithm::from_oid
+	/// @ob alg.unknown_oid @props C10,C11 @kind forall @tier quick @timeout 900 @bound "every 7-arc OID (the length of the RSA and ECDSA identifiers) and every 4-arc OID" @fns rcgen::SignatureAlgorithm::from_oid
 	#[kani::proof]
 	#[kani::unwind(60)]
 	fn alg_unknown_oid() {
